@@ -106,14 +106,14 @@ theorem sorted_keys_nodup (ms : List (Bytes × JVal)) (hs : Sorted ms) : (keys m
 
 open Model.Compare in
 theorem int_compare_is_order (a b : Stored) (ha : a.WF) (hb : b.WF) :
-    compare a b = (if a.val = b.val then 0 else if a.val < b.val then -1 else 1) := compare_spec a b ha hb
+    compareStored a b = (if a.val = b.val then 0 else if a.val < b.val then -1 else 1) := compare_spec a b ha hb
 
 open Model.Compare in
-theorem int_compare_refl (a : Stored) (ha : a.WF) : compare a a = 0 := by
+theorem int_compare_refl (a : Stored) (ha : a.WF) : compareStored a a = 0 := by
   rw [compare_spec a a ha ha]; simp
 
 open Model.Compare in
-theorem int_compare_antisymm (a b : Stored) (ha : a.WF) (hb : b.WF) : compare b a = - compare a b := by
+theorem int_compare_antisymm (a b : Stored) (ha : a.WF) (hb : b.WF) : compareStored b a = - compareStored a b := by
   rw [compare_spec a b ha hb, compare_spec b a hb ha]
   by_cases e : a.val = b.val
   · simp [e]
@@ -126,7 +126,7 @@ theorem int_compare_antisymm (a b : Stored) (ha : a.WF) (hb : b.WF) : compare b 
 
 open Model.Compare in
 theorem int_compare_trans (a b c : Stored) (ha : a.WF) (hb : b.WF) (hc : c.WF)
-    (h1 : compare a b < 0) (h2 : compare b c < 0) : compare a c < 0 := by
+    (h1 : compareStored a b < 0) (h2 : compareStored b c < 0) : compareStored a c < 0 := by
   rw [compare_spec a b ha hb] at h1
   rw [compare_spec b c hb hc] at h2
   rw [compare_spec a c ha hc]
@@ -148,7 +148,7 @@ theorem int_compare_trans (a b c : Stored) (ha : a.WF) (hb : b.WF) (hc : c.WF)
 
 open Model.Compare in
 /-- equality of the comparison is equality of the numbers, whatever the storage kinds -/
-theorem int_compare_eq_iff (a b : Stored) (ha : a.WF) (hb : b.WF) : compare a b = 0 ↔ a.val = b.val := by
+theorem int_compare_eq_iff (a b : Stored) (ha : a.WF) (hb : b.WF) : compareStored a b = 0 ↔ a.val = b.val := by
   rw [compare_spec a b ha hb]
   by_cases e : a.val = b.val
   · simp [e]
@@ -158,7 +158,7 @@ theorem int_compare_eq_iff (a b : Stored) (ha : a.WF) (hb : b.WF) : compare a b 
 example : Sorted ([([97], JVal.null), ([98], JVal.bool true)] : List (Bytes × JVal)) := ⟨by decide, trivial⟩
 example : (Model.Compare.Stored.i64 (-1)).WF ∧ (Model.Compare.Stored.u64 (2 ^ 64 - 1)).WF := by
   constructor <;> simp [Model.Compare.Stored.WF]
-example : Model.Compare.compare (.i64 (-1)) (.u64 (2 ^ 64 - 1)) = -1 := by decide
+example : Model.Compare.compareStored (.i64 (-1)) (.u64 (2 ^ 64 - 1)) = -1 := by decide
 
 end C09
 end Props
